@@ -684,6 +684,6 @@ class SDRAMPHYModel(Module):
             banks_read_data = new_banks_read_data
 
         self.comb += [
-            Cat(*[phase.rddata_valid for phase in phases]).eq(banks_read),
+            Cat(*[phase.rddata_valid for phase in phases]).eq(Replicate(banks_read, len(phases))),
             Cat(*[phase.rddata for phase in phases]).eq(banks_read_data)
         ]
